@@ -4,4 +4,5 @@ CONSTANTS
   MaxFields = 3
   Later = {"tx"}
   IndDims = {}
+  OthCfgs = {"dirL", "mix"}
 INVARIANTS KeepDisjoint NoSigNoPerms FlagsDoNotSign Emit
